@@ -40,7 +40,7 @@ func (h logsResourceHandler) ResolveFilter(_ common.ResourceQuery[any], operator
 		}
 		return fmt.Sprintf("type %s ?", common.ConvertOperatorToSQL(operator)), []any{value}, nil
 	default:
-		return "", nil, fmt.Errorf("unknown key '%s' when building query", property)
+		return "", nil, common.NewErrInvalidQuery("unknown key '%s' when building query", property)
 	}
 }
 
